@@ -26,7 +26,7 @@ class Gen:
 def generate(unit, repo='/repo', import_mode=False, strip_body=()):
     """returns Gen with .text, .report (per function), .regions [(line_lo, line_hi, fn path, rel file, origin lines)], .items"""
     ov = open(unit['_overlay_path']).read()
-    g = Gen(); g.report = []; g.items = []; g.problems = []
+    g = Gen(); g.report = []; g.items = []; g.problems = []; g.unit_name = unit['name']
     pieces = []
     for ent in unit['functions']:
         rel, path = ent[0], ent[1]
@@ -159,7 +159,7 @@ def run_verus(path, rlimit=None, timeout=900, extra=()):
 
 DEFINITE = ('postcondition not satisfied', 'precondition not satisfied', 'invariant not satisfied', 'assertion failed', 'possible arithmetic underflow/overflow',
             'possible division by zero', 'index out of bounds', 'possible bit shift underflow/overflow', 'recommendation not met', 'decreases not satisfied',
-            'termination', 'unreachable', 'failed this', 'could not prove', 'cannot show', 'might', 'not satisfied', 'slice index', 'not met')
+            'termination', 'unreachable', 'failed this', 'could not prove', 'cannot show', 'might', 'not satisfied', 'slice index', 'not met', 'evaluates to false', 'simplifies to')
 
 def classify_diag(d, g, gen_lines):
     """-> dict(kind, fn, clause, tag, text, real_file, real_line, definite)"""
@@ -202,6 +202,8 @@ def classify_diag(d, g, gen_lines):
             info['fn'] = enclosing_fn(pl)
     # the failing clause (secondary span for pre/postconditions, the primary span for invariants/asserts)
     def span_text(s):
+        if s.get('file_name') and not str(s.get('file_name')).endswith(('vxu_%s.rs' % g.unit_name, 'vxc_%s.rs' % g.unit_name)):
+            return ' '.join((t.get('text', '')[max(t.get('highlight_start', 1) - 1, 0):max(t.get('highlight_end', 1) - 1, 0)]).strip() for t in s.get('text', [])).strip()
         tx = ' '.join((t.get('text', '')[max(t.get('highlight_start', 1) - 1, 0):max(t.get('highlight_end', 1) - 1, 0)]).strip() for t in s.get('text', []))
         if not tx.strip():
             ls, le = s.get('line_start', 0), s.get('line_end', 0)
@@ -210,6 +212,7 @@ def classify_diag(d, g, gen_lines):
                 else: tx = ' '.join(gen_lines[ls - 1:le])
         return tx.strip()
     def span_tag(s):
+        if s.get('file_name') and not str(s.get('file_name')).endswith(('vxu_%s.rs' % g.unit_name, 'vxc_%s.rs' % g.unit_name)): return None
         ls = s.get('line_start', 0)
         if not (1 <= ls <= len(gen_lines)): return None
         before = gen_lines[ls - 1][:max(s.get('column_start', 1) - 1, 0)]
@@ -231,6 +234,8 @@ def classify_diag(d, g, gen_lines):
                 k2 = stmt_sp.get('line_start', 0) - r2[0]
                 for kk in range(min(k2, len(r2[4]) - 1), -1, -1):
                     if r2[4][kk] is not None: info['real_line'] = r2[4][kk]; break
+    if csp is not None and csp is not prim and csp.get('file_name') and not str(csp.get('file_name')).endswith('vxu_%s.rs' % g.unit_name) and prim is not None:
+        info['clause'] = span_text(prim)[:400]; info['tag'] = span_tag(prim)
     # callee of a failed precondition
     if 'precondition' in low and prim:
         info['callsite'] = info.get('text')
@@ -267,7 +272,11 @@ def add_canaries(g):
         ins = {}
         def can():
             n[0] += 1; expected.append((path, n[0])); return X.tokens('proof { if vx_canary ( %d ) { assert ( false ) ; } }' % n[0])
-        ins[bo + 1] = can()
+        p0 = bo + 1
+        while p0 + 1 < len(ts) and ts[p0] in ('hide', 'reveal', 'reveal_with_fuel') and ts[p0 + 1] == '(':
+            p0 = X.match_close(ts, p0 + 1) + 1
+            if p0 < len(ts) and ts[p0] == ';': p0 += 1
+        ins[p0] = can()
         # after loops
         i = bo + 1
         while i < len(ts):
